@@ -623,6 +623,22 @@ def float_cmp(ex, op, x, y):
 def float_binop(ex, op, x, y):
     if op in ('Eq', 'Lt', 'Le', 'Gt', 'Ge', 'Ne'):
         return float_cmp(ex, op, x, y)
+    # both operands concrete, finite and exactly representable: the result is what IEEE doubles give (Python's floats are doubles)
+    if op in ('Add', 'Sub', 'Mul', 'Div', 'Rem'):
+        cx = x if isinstance(x, F64) else F64(Fraction(x) if is_conc(x) else x, False, False)
+        cy = y if isinstance(y, F64) else F64(Fraction(y) if is_conc(y) else y, False, False)
+        if (is_conc(cx.val) and is_conc(cy.val) and cx.nan is False and cy.nan is False and cx.inf is False and cy.inf is False
+                and not isinstance(cx.val, F64) and not isinstance(cy.val, F64)):
+            try:
+                px, py = float(Fraction(cx.val)), float(Fraction(cy.val))
+                if Fraction(px) == Fraction(cx.val) and Fraction(py) == Fraction(cy.val) and not (op in ('Div', 'Rem') and py == 0.0):
+                    import math
+                    res = {'Add': lambda: px + py, 'Sub': lambda: px - py, 'Mul': lambda: px * py, 'Div': lambda: px / py,
+                           'Rem': lambda: math.fmod(px, py)}[op]()
+                    if res == res and res not in (float('inf'), float('-inf')):
+                        return F64(Fraction(res), False, False)
+            except (OverflowError, ValueError):
+                pass
     r = fresh_f64(ex, 'f' + op.lower())
     # IEEE round-to-nearest: a finite op on finite operands is the exact result within a relative 2^-52 (+ one
     # subnormal step); applied where the exact result is linear in the symbolic operand (an operand is concrete)
